@@ -101,4 +101,6 @@ PROPS['C20'] = C20
 PROPS['C14B'] = dict(level='exploration', level_text='temporary entry: pure half of C14 (classifiers)', technique='property-based testing (rapid), differential against errors.Is', rule=C14B_RULE, assumptions=[], quick=dict(engines=C14B_ENGINES_QUICK), thorough=dict(engines=C14B_ENGINES_THOROUGH))
 PROPS['C15P'] = dict(level='exploration', level_text='temporary entry: pure half of C15 (record codec)', technique='property-based testing (rapid) with per-record exhaustive single-byte damage', rule=C15_RULE, assumptions=[], quick=dict(engines=C15_ENGINES_QUICK), thorough=dict(engines=C15_ENGINES_THOROUGH))
 
-from checks_conf_c19 import C19; PROPS['C19'] = C19  # noqa: E402
+from checks_conf_c19 import C19  # noqa: E402
+C19['claimed'] = True
+PROPS['C19'] = C19
